@@ -1,7 +1,7 @@
 from common import *
 
 PROPERTY = "C12"
-QUICK_SAMPLE = 20
+QUICK_SAMPLE = 14
 BE = {"fft64": "poulpy_cpu_ref::FFT64Ref", "ntt120": "poulpy_cpu_ref::NTT120Ref"}
 OPS = ["normalize", "lsh", "rsh", "lsh_assign", "rsh_assign", "rotate_assign", "automorphism_assign", "mul_xp_minus_one_assign", "normalize_assign", "rsh_add_into", "lsh_sub"]
 D = "poulpy-cpu-ref/src/hal_defaults"
@@ -47,7 +47,7 @@ def instances(tier, seed):
                                         symbolic=["all scratch bytes", "operands |x|<2^60", "prior result"], stubs=[("poulpy_cpu_ref::hal_defaults::scratch::take_slice_aligned", "crate::vz::take_slice_aligned_stub")],
                                         functions=[f"{D}/vec_znx.rs::vec_znx_{oname}_default (+ its *_tmp_bytes)", f"{D}/scratch.rs::take_slice_aligned"], timeout=900,
                                         core=(be == "fft64" and nn in (1, 4) and p == ps[0] and op in (0, 2, 4, 5, 9)) or (be == "ntt120" and nn == 2 and op in (0, 4))))
-    return out + core_frame_instances() + exact_encrypt_instances()
+    return out + core_frame_instances(tier=tier) + exact_encrypt_instances()
 
 
 def exact_encrypt_instances():
@@ -70,7 +70,7 @@ FRAME_OPS = ["keyswitch", "keyswitch_assign", "external_product", "external_prod
 FRAME_FILES = {0: "poulpy-core/src/keyswitching/glwe.rs", 2: "poulpy-core/src/external_product/glwe.rs", 4: "poulpy-core/src/automorphism/glwe_ct.rs"}
 
 
-def core_frame_instances(ops=None):
+def core_frame_instances(ops=None, tier="thorough"):
     out = []
     # (b, bk, k_in, k_key, k_out, dsize, dnum, rank_in, rank_out)
     shapes = [(12, 12) + t for t in [(24, 36, 24, 1, 2, 1, 1), (24, 36, 36, 1, 2, 1, 1), (36, 60, 36, 2, 2, 1, 1), (24, 36, 24, 1, 2, 2, 2), (24, 36, 24, 1, 1, 1, 1), (24, 36, 12, 1, 2, 1, 1), (24, 36, 24, 1, 2, 2, 1), (24, 36, 24, 1, 2, 1, 2)]] + [(17, 12, 34, 36, 34, 1, 3, 1, 1), (12, 17, 24, 34, 24, 1, 2, 1, 1), (12, 12, 36, 60, 60, 3, 1, 1, 1)]
@@ -82,6 +82,8 @@ def core_frame_instances(ops=None):
                 continue
             if dsize == 3 and op > 1:
                 continue
+            if tier != "thorough" and ((b, bk) != (12, 12) or dsize > 1 or kin != 24):
+                continue  # quick tier: the light (radix 12, two-limb, dsize 1) shapes only
             if op >= 6 and (kin != kout or dsize > 1):
                 continue
             if op >= 4 and (b, bk) == (17, 12):  # calibrated: the 3-row cross-radix automorphism shapes exceed the time / memory caps
@@ -91,6 +93,8 @@ def core_frame_instances(ops=None):
             for p, nsym in [(p, ns) for p in ((-1, 3, 5) if op >= 4 else (0,)) for ns in (2, 999)]:
                 core = (b, bk, kin, kk, kout, dsize, dnum, ri, ro) == (12, 12, 24, 36, 24, 1, 2, 1, 1) and p in (0, 3) and nsym == 2 and op in (0, 2, 8)
                 if nsym == 999 and not ((b, bk, kin, kk, kout, dsize, dnum, ri, ro) == (12, 12, 24, 36, 24, 1, 2, 1, 1) and p in (0, 3)):
+                    continue
+                if nsym == 999 and tier != "thorough":
                     continue
                 cols_sz = 8 * (max(ri, ro) + 1) * -(-max(kin, kout) // b)
                 out.append(Instance(crate="hk_core", family=f"core.{oname}", name=f"c12_core_{oname}_b{b}_{bk}_kin{kin}_kk{kk}_ko{kout}_ds{dsize}_dn{dnum}_r{ri}{ro}_p{sgn(p)}_{'all' if nsym == 999 else f'sym{nsym}'}",
